@@ -20,6 +20,7 @@ func main() {
 			"family uri: URIs assembled through the setters (scheme, host with port / IPv6 literal, path, query, fragment from all bytes), FullURI() parsed back, equal components, String() a fixed point; family cookie: response cookies with all attribute combinations, String() parsed back; distinct = the input values themselves (hashed); non-trivial = contains a byte that needs escaping",
 		Assumptions: []string{
 			"entries with both key and value empty are excepted (property text)",
+			"every parse is also performed on a long-lived, previously used Args / URI object (as pooled requests do) and must give the same result as on a fresh one",
 			"cookie names/values/domain/path are drawn from the bytes the cookie grammar can carry (no ';', '=' in names, no CTL, no leading/trailing SP, no '%' for values): the wire format has no escaping",
 			"Max-Age suppresses Expires as documented; expiry compared at second resolution",
 			"a fragment with a control byte is the recorded finding uri-fragment-ctl; attribution: the mismatch disappears when only the control bytes of the fragment are replaced",
@@ -54,6 +55,22 @@ func rs(r *mon.Rand, n int, al []byte) string {
 	return string(b)
 }
 
+// reused objects: pooled requests and URIs parse into Args that held other data before,
+// so every parse below is also run on a long-lived, previously dirty object
+var (
+	reusedArgs protocol.Args
+	reusedURI  protocol.URI
+	dirtyQuery = []byte("a=dirty1&%2B=dirty2&k=dirty3&=dirty4&;=dirty5")
+)
+
+func parseReused(enc string) []kv {
+	reusedArgs.ParseBytes(dirtyQuery)
+	reusedArgs.ParseBytes([]byte(enc))
+	var got []kv
+	reusedArgs.VisitAll(func(k, v []byte) { got = append(got, kv{string(k), string(v)}) })
+	return got
+}
+
 func argsRT(list []kv) (string, []kv, []kv) {
 	var a protocol.Args
 	var want []kv
@@ -69,6 +86,10 @@ func argsRT(list []kv) (string, []kv, []kv) {
 	b.ParseBytes([]byte(enc))
 	var got []kv
 	b.VisitAll(func(k, v []byte) { got = append(got, kv{string(k), string(v)}) })
+	if fmt.Sprint(got) == fmt.Sprint(want) {
+		// same parse on the reused object: must give the same list
+		got = parseReused(enc)
+	}
 	return enc, want, got
 }
 
@@ -81,6 +102,14 @@ func neturlAgree(s string) (ok bool, uv, hv url.Values, accepted bool) {
 	b.ParseBytes([]byte(s))
 	got := url.Values{}
 	b.VisitAll(func(k, v []byte) { got.Add(string(k), string(v)) })
+	// the reused object must parse the string exactly like the fresh one
+	got2 := url.Values{}
+	for _, e := range parseReused(s) {
+		got2.Add(e.k, e.v)
+	}
+	if fmt.Sprint(got2) != fmt.Sprint(got) {
+		got = got2
+	}
 	// entries with empty key and empty value are excepted
 	strip := func(v url.Values) {
 		if xs, ok := v[""]; ok {
@@ -141,6 +170,13 @@ func uriRT(s uriSpec) string {
 	full := string(u.FullURI())
 	var v protocol.URI
 	v.Parse(nil, []byte(full))
+	// and into a long-lived URI that parsed something else before
+	reusedURI.Parse(nil, []byte("https://dirty.host:1/dirty/path?dq=1&token=secret&b=2#dirtyfrag"))
+	reusedURI.QueryArgs().Len()
+	reusedURI.Parse(nil, []byte(full))
+	if !bytes.Equal(reusedURI.FullURI(), v.FullURI()) || reusedURI.QueryArgs().String() != v.QueryArgs().String() {
+		return fmt.Sprintf("a reused URI object parses %q differently from a fresh one: %q (args %q) vs %q (args %q)", full, reusedURI.FullURI(), reusedURI.QueryArgs().String(), v.FullURI(), v.QueryArgs().String())
+	}
 	switch {
 	case !bytes.Equal(u.Scheme(), v.Scheme()):
 		return fmt.Sprintf("scheme %q -> %q (full %q)", u.Scheme(), v.Scheme(), full)
@@ -206,7 +242,9 @@ func work(w *mon.W) {
 				w.Count("roundtrips", 1)
 				if fmt.Sprint(got) != fmt.Sprint(want) {
 					l := list
-					c.Detail = func() interface{} { return map[string]interface{}{"family": "args", "list": fmt.Sprintf("%q", l), "encoded": enc} }
+					c.Detail = func() interface{} {
+						return map[string]interface{}{"family": "args", "list": fmt.Sprintf("%q", l), "encoded": enc}
+					}
 					c.Violate("args-roundtrip", "argument list %q encodes to %q which parses to %q", want, enc, got)
 					return
 				}
@@ -247,7 +285,9 @@ func work(w *mon.W) {
 			enc, want, got := argsRT(list)
 			w.Count("roundtrips", 1)
 			if fmt.Sprint(got) != fmt.Sprint(want) {
-				c.Detail = func() interface{} { return map[string]interface{}{"family": "args", "list": fmt.Sprintf("%q", list), "encoded": enc} }
+				c.Detail = func() interface{} {
+					return map[string]interface{}{"family": "args", "list": fmt.Sprintf("%q", list), "encoded": enc}
+				}
 				c.Violate("args-roundtrip", "argument list %q encodes to %q which parses to %q", want, enc, got)
 				return
 			}
